@@ -123,6 +123,7 @@ func vmRun(t *testing.T, tr *vkTrace, id int, v vmVec) { //nolint:cyclop
 	}
 	var mu sync.Mutex
 	got := 0
+	var kept []*rtp.Packet
 	remoteInfo := make(chan vkM, 4)
 	receiver.OnTrack(func(tk *TrackRemote, _ *RTPReceiver) {
 		if tk.ID() != trackID {
@@ -135,11 +136,11 @@ func vmRun(t *testing.T, tr *vkTrace, id int, v vmVec) { //nolint:cyclop
 			if err != nil {
 				return
 			}
+			// the application keeps what it was given (a jitter buffer does) and looks at it later
 			mu.Lock()
 			got++
+			kept = append(kept, p)
 			mu.Unlock()
-			tr.Emit(vkM{"ev": "rtp", "t": id, "rseq": int(p.SequenceNumber), "pt": int(p.PayloadType), "ssrc": fmt.Sprint(p.SSRC),
-				"hash": vmHash(p.Payload), "len": len(p.Payload), "sig": "rtp(" + v.Codec + ")"})
 		}
 	})
 	// signalling in the requested direction
@@ -216,6 +217,13 @@ func vmRun(t *testing.T, tr *vkTrace, id int, v vmVec) { //nolint:cyclop
 		time.Sleep(5 * time.Millisecond)
 	}
 	time.Sleep(30 * time.Millisecond)
+	mu.Lock()
+	for _, p := range kept {
+		tr.Emit(vkM{"ev": "rtp", "t": id, "rseq": int(p.SequenceNumber), "pt": int(p.PayloadType), "ssrc": fmt.Sprint(p.SSRC),
+			"hash": vmHash(p.Payload), "len": len(p.Payload), "sig": "rtp(" + v.Codec + ")"})
+	}
+	kept = nil
+	mu.Unlock()
 	ri := vkM{"mime": "", "stream": "", "track": "", "pt": -1}
 	haveRemote := false
 	select {
